@@ -210,6 +210,14 @@ EXC_POOL = {
 # ------------------------------------------------------------------------------------------------
 # the scripted world
 # ------------------------------------------------------------------------------------------------
+class Runaway(BaseException):
+    """raised by the scripted nameservers when one resolution has issued far more queries than any terminating
+    resolution can (a BaseException, so that the resolver's own `except Exception` cannot swallow it)"""
+
+
+QUERY_LIMIT = 4000
+
+
 class World:
     """shared by the scripted nameservers of one case: the script, the virtual clock, the trace"""
 
@@ -240,6 +248,8 @@ class World:
         return {"k": "x", "e": "timeout", "v": 0, "d": 0}, "timeout", timeout_ms
 
     def begin(self, ns, request, timeout, tcp):
+        if sum(1 for e in self.events if e["ev"] == "q") >= QUERY_LIMIT:
+            raise Runaway(f"{QUERY_LIMIT} queries in one resolution")
         to = to_ms(timeout)
         spec, tag, dur = self.next_step(ns, request, to, tcp)
         q = request.question[0]
@@ -605,6 +615,10 @@ def oracle(ctx, case, obs, rep):
         queries = [e for e in evs if e["ev"] == "q"]
         where = f"resolution {idx}: {o['line']}"
         ctx.count("result." + cls)
+        if cls == "FOREIGN" and res["exc"].startswith("Runaway"):
+            fail("lifetime/does-not-terminate", f"{where}: {QUERY_LIMIT} queries issued and the resolution still runs "
+                 f"(clock at +{end - start} ms, lifetime {life})")
+            continue
         if cls == "FOREIGN":
             fail("classification/foreign-exception:" + res["exc"].split("(")[0], f"{where}: {res['exc']}")
             continue
@@ -1113,7 +1127,7 @@ def case_key(c):
 
 def generate(ctx: Ctx, scale: float, rng):
     n = lambda q: max(1, int(q * scale))
-    for _ in range(n(6000)):
+    for _ in range(n(5000)):
         c, gen = gen_run(ctx, rng)
         nt = eval_case(ctx, c, gen)
         ctx.case(("run", case_key(c)), nontrivial=nt, sample=c if len(c["script"]) < 8 else None)
@@ -1179,6 +1193,10 @@ def search(ctx: Ctx):
 
 
 def replay(ctx: Ctx, obj: dict):
+    """re-evaluate the recorded case; it "still fails" if the recorded clause fails again (any clause, for a file
+    without a signature such as a corpus witness)"""
     probe_variant()
-    eval_case(ctx, obj["case"])
-    return [f.what for f in ctx.failures]
+    eval_case(ctx, json.loads(json.dumps(obj.get("case", obj))))  # a replay file, or a bare corpus case
+    sig = obj.get("signature")
+    fs = [f for f in ctx.failures if sig is None or f.signature == sig]
+    return [f.what for f in fs]
